@@ -132,6 +132,7 @@ func openNode(dir string, cfg *repo.Config, price int64) (*node, error) {
 	if n.exec, err = executor.New(n.ldg, quietLogger, &appchain.Client{}, cfg, big.NewInt(price)); err != nil {
 		return nil, err
 	}
+	n.exec.VerifWrapProofVerdict()
 	// read-only executor over a view ledger, as internal/app does
 	viewLdg := &ledger.Ledger{ChainLedger: n.ldg.ChainLedger}
 	if viewLdg.StateLedger, err = ledger.NewSimpleLedger(n.rep, n.stateDB, nil, quietLogger); err != nil {
